@@ -66,6 +66,16 @@ fn process_commands(
 
     return responses;
 }
+#[cfg(nundb_verif)]
+pub fn verif_process_commands(
+    commands: &Vec<&str>,
+    receiver: &mut Receiver<String>,
+    dbs: &Arc<Databases>,
+    client: &mut Client,
+) -> Vec<String> {
+    process_commands(commands, receiver, dbs, client)
+}
+
 pub fn start_http_client(dbs: Arc<Databases>, http_address: Arc<String>) {
     let http_address = http_address.to_string();
     log::debug!(
